@@ -146,6 +146,24 @@ func Report[C any](t *testing.T, rec *ev.Recorder, check string, c C, f *Fail) b
 	return true
 }
 
+// Terminal reports a failure after which the test process cannot go on (a deadlock leaves a lock of the library held
+// for good: every further evaluation, and every shrinking attempt, would hang as well): the case is written as it is,
+// the evidence part is written, and the process exits with status 1.
+func Terminal[C any](rec *ev.Recorder, check string, c C, f *Fail) {
+	if f = Filter(rec, f); f == nil {
+		return
+	}
+	if survey(rec, check, c, f) {
+		rec.MustWrite()
+		os.Exit(0)
+	}
+	p := WriteReplay(rec, check, c, f)
+	rec.Violation(p, check+": "+f.Msg)
+	ClearInflight(rec)
+	rec.MustWrite()
+	os.Exit(1)
+}
+
 // CrashGuard, when set by a props package whose subject can kill the process
 // (assembly kernels), makes Run/Report record the case in flight in a file
 // before every evaluation. If the test binary dies with a fatal error the driver
